@@ -168,6 +168,17 @@ func LoadAllOrder(w *world.World, parseSeed uint64) (*Loaded, error) {
 	return loadSubset(w, parseSeed, nil)
 }
 
+// RelMsg removes the root directory from file names that a message text mentions: like the
+// position of a diagnostic, such a name is absolute in one driver and relative in another
+// (and lives under a different root in each leg); which form a driver prints is not a
+// difference between diagnostics.
+func RelMsg(msg string) string {
+	if simRoot == "" || !strings.Contains(msg, simRoot) {
+		return msg
+	}
+	return strings.ReplaceAll(msg, simRoot, "")
+}
+
 // GoListOrder returns the files of p in the order both real drivers hand them to an
 // analyzer (go list: GoFiles sorted by name, then TestGoFiles, then XTestGoFiles), whatever
 // order the generator emitted them in. An analysis whose result depends on this order is
